@@ -175,6 +175,7 @@ def run(ctx):
                         'when an operation starts while another recording of the same recorder is active, that recording is detached from the recorder '
                         'without being saved or aborted: it was created but is never finalised', witness=dn.path_to(n, s), exit=rm.exit_kind(n)))
     from . import common as _ci
+    _ci.template_hooks_clause(ctx, res, 'C05', 'C05.l', 'Recording', floor=2)
     _ci.import_clauses(ctx, res, 'C12', ['C12.a', 'C12.c', 'C12.d', 'C12.e', 'C12.f'], 'C05', 'C05.k', 'R-ORDER',
                        'through the asynchronous cassette a recording is stored whole: every buffered write applied once, in order, before its save', floor=4)
     _ci.import_clauses(ctx, res, 'C10', ['C10.d'], 'C05', 'C05.i', 'R-AGREE', 'a save that fails leaves nothing behind that lookups can find', floor=1)
@@ -199,10 +200,19 @@ def run(ctx):
             if not rm.interception_due(d2, s):
                 continue
             body = sum(d2.n(s, lab) for lab in body_label(d2))
-            if body == 0:
-                continue
             a = d2.field(s, roles.active)
             dead = a is not None and a.kind == 'none'
+            if body == 0:
+                # the interception was not executed: fine unless a step of the capture itself failed (an exception that is not the
+                # body's own leaves the decorator) while the recording stays alive - that recording misses this call and is saved
+                src = str(s.extra.get('exc_src', ''))
+                if ek.startswith('raise:') and src and not src.startswith(('user-body:', 'raise ')) and not dead:
+                    gf = groups.setdefault(ek + ' (capture step failed)', dict(ok=True, states=0, bad=None))
+                    gf['states'] += 1
+                    if gf['ok']:
+                        gf['ok'] = False
+                        gf['bad'] = (n, s, 0)
+                continue
             stores = d2.n(s, 'store:active-recording')
             ok = dead or stores >= expected
             g = groups.setdefault(ek, dict(ok=True, states=0, bad=None))
